@@ -465,6 +465,13 @@ class AccessMixin:
             return default
         ty = cell.sym.ty
         s = sort_of(ty)
+        if isinstance(key, SV) and key.ty.name == "Opt" and key.ty.args[0] == ty.args[0] and not raising:
+            # None is never a key of a map whose keys are of the declared type
+            ks = sort_of(key.ty)
+            inner = self.dict_get(cell, ctx.wrap(ks.val(key.t), ty.args[0]), raising=False, default=default)
+            return self.merge(ks.is_none(key.t), default, inner)
+        if key is None and not raising:
+            return default
         kt = ctx.term(key, ty.args[0])
         present = z3.Select(s.dom(cell.sym.t), kt)
         val = ctx.wrap(z3.Select(s.val(cell.sym.t), kt), ty.args[1])
